@@ -240,20 +240,12 @@ def h_copy(p0: int, p1: int, p2: int, p3: int, p4: int, x: int) -> bool:
 _BAD_COPY_KW = ({"position": "bad"}, {"orientation": 5}, {"style_notaleaf": 1}, {"parent": "nope"})
 
 
-def h_copy_rejected(p0: int, p1: int, p2: int, p3: int, p4: int, x: int, k: int) -> bool:
-    """
-    pre: _valid(_par4(p0, p1, p2, p3, p4)) and 0 <= x < N and 0 <= k <= 3 and -1 <= p4 <= 2
-    post: _
-    """
+def _copy_rejected(p0: int, p1: int, p2: int, p3: int, p4: int, x: int, k: int) -> bool:
     # copy(**kwargs) with a keyword that is rejected: the call raises and the forest is what it was
     par = _par4(p0, p1, p2, p3, p4)
     _build(par)
-    kw = _BAD_COPY_KW[0]
-    for j in range(len(_BAD_COPY_KW)):
-        if j == k:
-            kw = _BAD_COPY_KW[j]
     try:
-        _OBJS[x].copy(**kw)
+        _OBJS[x].copy(**_BAD_COPY_KW[k])
         return False  # must be rejected
     except Exception:
         pass
@@ -265,6 +257,38 @@ def h_copy_rejected(p0: int, p1: int, p2: int, p3: int, p4: int, x: int, k: int)
         if p >= 0 and _OBJS[i]._parent is not _OBJS[p]:
             return False
     return True
+
+
+def h_copy_rejected_position(p0: int, p1: int, p2: int, p3: int, p4: int, x: int) -> bool:
+    """
+    pre: _valid(_par4(p0, p1, p2, p3, p4)) and 0 <= x < N and -1 <= p4 <= 2
+    post: _
+    """
+    return _copy_rejected(p0, p1, p2, p3, p4, x, 0)
+
+
+def h_copy_rejected_orientation(p0: int, p1: int, p2: int, p3: int, p4: int, x: int) -> bool:
+    """
+    pre: _valid(_par4(p0, p1, p2, p3, p4)) and 0 <= x < N and -1 <= p4 <= 2
+    post: _
+    """
+    return _copy_rejected(p0, p1, p2, p3, p4, x, 1)
+
+
+def h_copy_rejected_style(p0: int, p1: int, p2: int, p3: int, p4: int, x: int) -> bool:
+    """
+    pre: _valid(_par4(p0, p1, p2, p3, p4)) and 0 <= x < N and -1 <= p4 <= 2
+    post: _
+    """
+    return _copy_rejected(p0, p1, p2, p3, p4, x, 2)
+
+
+def h_copy_rejected_parent(p0: int, p1: int, p2: int, p3: int, p4: int, x: int) -> bool:
+    """
+    pre: _valid(_par4(p0, p1, p2, p3, p4)) and 0 <= x < N and -1 <= p4 <= 2
+    post: _
+    """
+    return _copy_rejected(p0, p1, p2, p3, p4, x, 3)
 
 
 def twin_add_moves_child(p0: int, p1: int, p2: int, p3: int, p4: int, tgt: int, x: int) -> bool:
